@@ -345,11 +345,11 @@ func VP_C01_step() {
 	}
 }
 
-//vp:property C01
+//vp:property C01 C16
 //vp:set k 5 7
 //vp:set budget 60 900
 //vp:set maxalloc 24 24
-//vp:bounds K packets (quick 4, thorough 6) from the initial state; types drawn from the 8 classes {1,4,6,8,0xA,0xD,0x10,other}; bodies: fixed well-formed skeletons with symbolic fields (server name 1 UTF-16 unit), callbacks symbolic
+//vp:bounds K packets (quick 4, thorough 6) from the initial state; types drawn from the 8 classes {1,4,6,8,0xA,0xD,0x10,other}; bodies: fixed well-formed skeletons with symbolic fields (handshake and tunnel capability bytes, port, server name 1 UTF-16 unit, data byte), callbacks symbolic; every response checked against the documented layout
 //vp:reach dialed relayed
 func VP_C01_bmc() {
 	vpResetC01()
@@ -364,7 +364,7 @@ func VP_C01_bmc() {
 		case 1:
 			body = []byte{1, 0, 0, 0, vpU8("caps" + is), 0}
 		case 4:
-			body = []byte{0, 0, 0, 0, 0, 0, 0, 0}
+			body = []byte{vpU8("tcaps" + is), 0, 0, 0, 0, 0, 0, 0} // the client's capability word is arbitrary
 		case 6:
 			body = []byte{2, 0, 'c', 0}
 		case 8:
@@ -387,6 +387,7 @@ func VP_C01_bmc() {
 	sawBad := false
 	for i, r := range tr.out {
 		vpAssert(!sawBad, "nothing-answered-after-error-or-close")
+		vpCheckLayout(r) // every response of the history has the documented layout (C16)
 		if len(r) < 14 {
 			continue
 		}
